@@ -64,6 +64,8 @@ class Context:
         self.only_case = opts.only_case
         self.obs = obs
         self.thorough = opts.tier == 'thorough'
+        import tempfile
+        self.workdir = tempfile.mkdtemp(prefix='shard%d-' % opts.shard)     # under TMPDIR = /verif/.work/<run>, removed by the runner
 
     def n(self, quick, thorough):
         return thorough if self.thorough else quick
